@@ -63,6 +63,41 @@ POP_NAMES = ['rich', 'sparse', 'empty']
 _proc = {}
 
 
+def population(pop):
+    """A population is named (POPULATIONS) or given as rows + links."""
+    return pop if isinstance(pop, dict) else POPULATIONS[pop]
+
+
+def random_population(rng):
+    """A small arbitrary population that respects the multiplicities of R1..R4."""
+    na, nb, nl = rng.randint(0, 3), rng.randint(0, 3), rng.randint(0, 2)
+    pop = dict(A=[dict(a_id=1 + i, i=rng.choice([0, 1, 2, 3]), s=rng.choice(['', 'x', 'y']), b=rng.random() < 0.5) for i in range(na)],
+               B=[dict(b_id=11 + i, n=rng.choice([0, 2, 10, 20]), t=rng.choice(['', 'x', 'p'])) for i in range(nb)],
+               L=[dict(l_id=21 + i, w=rng.choice([0, 5, 6])) for i in range(nl)], links=dict(R1=[], R2=[], R3=[], R4=[]))
+    if na:
+        for b in range(nb):
+            if rng.random() < 0.5:
+                pop['links']['R1'].append([rng.randrange(na), b])
+        free_b = list(range(nb))
+        rng.shuffle(free_b)
+        for a in range(na):
+            if free_b and rng.random() < 0.4:
+                pop['links']['R2'].append([a, free_b.pop()])
+        order = list(range(na))
+        rng.shuffle(order)
+        for p, f in zip(order, order[1:]):
+            if rng.random() < 0.5:
+                pop['links']['R3'].append([p, f])
+        pairs = set()
+        for l in range(nl):
+            if nb and rng.random() < 0.7:
+                a, b = rng.randrange(na), rng.randrange(nb)
+                if (a, b) not in pairs:
+                    pairs.add((a, b))
+                    pop['links']['R4'].append([a, b, l])
+    return pop
+
+
 def schema():
     if 'schema' not in _proc:
         _proc['schema'] = make_schema()
@@ -260,7 +295,7 @@ def warm_up():
 def run_reference(tree, pop_name, max_steps=600, params=None):
     """(result, snapshot) of the reference evaluation; raises OutOfDomain."""
     sch = schema()
-    w = populate_ref(sch, POPULATIONS[pop_name])
+    w = populate_ref(sch, population(pop_name))
     m = R.Machine(w, max_steps=max_steps)
     result = m.run_body(tree, params)
     return result, R.snapshot(w), m
@@ -270,7 +305,7 @@ def run_real(text, pop_name, params=None):
     """(result, snapshot, error) of bridgepoint.interpret.run_function on a fresh Domain with the population."""
     sch = schema()
     domain = fresh_domain()
-    populate_real(domain, sch, POPULATIONS[pop_name])
+    populate_real(domain, sch, population(pop_name))
     try:
         result = with_timeout(lambda: interpret.run_function(domain, 'prog', text, dict(params or {})))
     except Timeout:
